@@ -334,15 +334,12 @@ def judge(rec, texts, flags="", expect_raise=None, expect_out1=None):
                 bad.append(("C19:host-stdout", f"input() prompt {e[1]!r} written to the host"))
     err = rec["err"]
     if err not in (None, "SystemExit"):
-        if rec["where"] == "post":
-            bad.append(("C19:implicit-output-raises", f"{err} raised while printing the final value propagates out of execute_vyxal (the implicit output is after the try/except); online_output[2] = {rec['out2'][:40]!r}"))
-        else:
-            bad.append(("C19:error-propagates", f"{err}: {rec['msg'][:80]} propagates out of execute_vyxal ({rec['where']})"))
+        bad.append(("C19:error-propagates", f"{err}: {rec['msg'][:80]} propagates out of execute_vyxal (raised {rec['where']} its try blocks); online_output[2] = {rec['out2'][-40:]!r}"))
     if err == "SystemExit" and "h" not in flags and "Q" not in texts and "Traceback" not in rec["out2"]:
         bad.append(("C19:exit-without-record", "sys.exit without an error report in online_output[2]"))
     if expect_raise is True and not (err == "SystemExit" and "Traceback" in rec["out2"]):
         bad.append(("C19:error-not-recorded", f"program raises; expected traceback in online_output[2] and SystemExit, got err={err} out2={rec['out2'][-60:]!r}"))
-    if expect_raise is False and err is not None and not (rec["where"] == "post" and err != "SystemExit"):
+    if expect_raise is False and err is not None:
         bad.append(("C19:unexpected-error", f"err={err} {rec['msg'][:60]} out2={rec['out2'][-80:]!r}"))
     if expect_out1 is not None and rec["out1"] != expect_out1:
         bad.append(("C19:output-record", f"online_output[1] = {rec['out1'][:80]!r}, expected {expect_out1[:80]!r}"))
@@ -449,7 +446,7 @@ def fixed_cases():
         add(s + "Ė", texts=[p])
         add(s + ",", texts=[p], out1=p + "\n", raises=False)
         add("⟨" + s + "|" + s + "⟩E,", texts=[p], raises=False)
-        add(s + "E" + "E", texts=[p], raises=False)
+        add(s + "E" + "E", texts=[p])      # 2 ** n: `-3`EE is a float whose printing raises (recorded)
         add(s + "wE", texts=[p], raises=False)
         add("λ" + s + "E;†", texts=[p], raises=False)
         add(s + "λE;†,", texts=[p], raises=False)
@@ -477,12 +474,19 @@ def fixed_cases():
     add("1,`abc`λ1;/", raises=True, out1="1\n")
     add("?,←x", inputs=[PAYLOADS[1]], texts=[PAYLOADS[1]], raises=True, out1=PAYLOADS[1] + "\n")
     add("`abc`λ1;/", flags="c", raises=True)
-    # F14: a final value whose printing raises
-    add("kn", f14=True)
-    add("λ`a`λ1;/;", f14=True)
-    add("3ɾƛ`a`λ1;/;", f14=True)
-    add("1 kn", f14=True)
-    add("kn", flags="j", f14=True)
+    # errors raised by the flag post-processing / the implicit output (after the body's try):
+    # recorded like any other, whatever was printed before stays in the record
+    add("kn", raises=True, out1="")
+    add("λ`a`λ1;/;", raises=True, out1="")
+    add("3ɾƛ`a`λ1;/;", raises=True, out1="⟨ ")
+    add("1 kn", raises=True)
+    add("1,kn", flags="o", raises=True, out1="1\n")
+    add("kn", flags="j", raises=True)
+    add("3ɾ", flags="L", raises=True)
+    add("3ɾ", flags="C", raises=True)
+    add("`-3`EE", raises=True)
+    add("?E", inputs=["-3"], raises=True)
+    add("?Ė", inputs=["[[1], 'x']"], raises=True)
     return cs
 
 
@@ -542,11 +546,10 @@ def oracle(env):
         c["diff"] = "c" not in c["flags"] and "h" not in c["flags"]
     cases = fixed + rnd + dif
     res = V.pmap(oracle_case, cases, timeout=4 * RUN_SECONDS, procs=min(V.NPROC, 8))
-    stats = {"ok": 0, "timeout": 0, "exc": 0, "raised_recorded": 0, "finished": 0, "f14": 0, "host_input_reads": 0,
+    stats = {"ok": 0, "timeout": 0, "exc": 0, "raised_recorded": 0, "finished": 0, "host_input_reads": 0,
              "diff_compared": 0}
     nev = {}
     keys = []
-    f14_inputs = []
     sympy_notes = []
     for c, (st, r) in zip(cases, res):
         inp = {"program": c["prog"], "inputs": c["inputs"], "flags": c["flags"], "online": True}
@@ -580,19 +583,12 @@ def oracle(env):
                     sympy_notes.append({"input": inp, "what": what})
                 stats["sympy_text_evaluations_noted"] = stats.get("sympy_text_evaluations_noted", 0) + 1
                 continue
-            if cls == "C19:implicit-output-raises":
-                stats["f14"] += 1
-                if len(f14_inputs) < 8:
-                    f14_inputs.append(inp)
             env.fail(inp, what, cls=cls)
-        if c.get("f14") and not any(cls == "C19:implicit-output-raises" for cls, _ in r["bad"]):
-            env.note("f14_no_longer_reproduces_on", c["prog"])
         if c.get("texts") or c["inputs"] or any(p in c["prog"] for p in PRINTERS) or r["err"]:
             keys.append("run:" + c["prog"] + "|" + "\n".join(c["inputs"]) + "|" + c["flags"])
     env.count(len(cases), keys)
     env.note("oracle_runs", {"fixed": len(fixed), "random_tainted": len(rnd), "random_differential": len(dif), **stats})
     env.note("audit_event_counts", nev)
-    env.note("implicit_output_raises_examples", f14_inputs)
     env.note("sympy_text_evaluation_reached_NOT_judged", sympy_notes)
     env.sample({"oracle_case": cases[len(fixed) + 3]})
     env.sample({"oracle_case": fixed[60]})
@@ -1137,9 +1133,9 @@ def run(env):
                 "(compile / exec / builtins.input / os.system / subprocess.Popen / open / urllib.Request; host effects are blocked by raising) with host stdout captured. "
                 "A run violates the property when anything reaches host stdout; when a compile event that is not ast.parse's (literal_eval) has a source in which a user text "
                 "(string literal of the program or input line) occurs outside every string constant, or equals it; when an executed code object has a tainted name; when a side-effect event fires; "
-                "when an exception other than SystemExit leaves execute_vyxal; when a raising program does not end in SystemExit with a traceback in record[2]; when record[1] differs from the expected text "
+                "when an exception other than SystemExit leaves execute_vyxal (wherever it was raised: input handling, transpile, body, flag post-processing, implicit output); when a raising program does not end in SystemExit with a traceback in record[2]; when SystemExit comes without a record; when record[1] differs from the expected text "
                 "(fixed cases) or from the offline stdout of the same program (differential cases). Programs: a fixed list (every printing element on scalar/list/lazy list/function, flags jJWSsdlGgLC…PṪṡcoOh, implicit output, "
-                "E/†/Ė/vectorised E on 10 tainted payloads and 9 literals, the same texts as inputs through ? , implicit input, □, flags a/Ṡ, raising programs, final values whose printing raises) "
+                "E/†/Ė/vectorised E on 10 tainted payloads and 9 literals, the same texts as inputs through ? , implicit input, □, flags a/Ṡ, raising programs, programs whose flag post-processing or implicit output raises) "
                 "plus random programs from the core grammar (vlib/progs.py) extended with , … ₴ ¨, ¨… E † Ė whose string literals and inputs are drawn from the payloads. "
                 "CORRESPONDENCE (model evaluated in Coq): vy_eval on generated benign texts x both modes (trace + value/unchanged), vy_print on random value shapes (scalar, list, function, lazy list with cached prefix, nested) x both modes "
                 "(number and kind of output effects; online text = offline text), function_call/vy_exec on strings and numbers, execute_vyxal on generated scenarios (inputs, flags c O o Ṡ, body of prints/E/†/Ė, raising body, transpile failure, final value that prints or raises) x both modes. "
